@@ -270,20 +270,28 @@ def gen_history(rng, idx, tier):
     for _ in range(n_ops):
         kind = rng.choice(enabled_t) if (enabled_t and rng.random() < 0.25) else rng.choice(enabled)
         ops.append({"op": kind, "subject": rng.randrange(8), "r": rng.getrandbits(30)})
-    return {"subjects": subjects, "ops": ops}
+    hist = {"subjects": subjects, "ops": ops}
+    # ambient configuration (own stream): the whole history may run inside a config_context of the caller; every operation
+    # must leave *that* configuration in force
+    r2 = kernel.derive(rng.getrandbits(32), "ambient")
+    if r2.random() < 0.3:
+        from checks import c06
+        hist["ambient"] = r2.choice(c06.AMBIENT)
+    return hist
 
 
 # ---------------------------------------------------------------------------------------------
 # history execution
 # ---------------------------------------------------------------------------------------------
 class World:
-    def __init__(self, hist):
+    def __init__(self, hist, reset_config=True):
         _install_disk()
         _DISK["files"].clear()
         _DISK["fault"] = None
         _DISK["fired"].clear()
         from pandera import config
-        config.reset_config_context()
+        if reset_config:
+            config.reset_config_context()
         faults.install(faults.FaultState())
         _warm_registries()
         self.hist = hist
@@ -801,6 +809,16 @@ def history_tags(hist, upto=None):
 
 
 def run_history(hist):
+    if hist.get("ambient"):
+        from pandera import config
+        from checks import c06
+        config.reset_config_context()
+        with config.config_context(**c06.ambient_kwargs(hist["ambient"])):
+            w = World(hist, reset_config=False)
+            w.run()
+        w.bump("probe.history_inside_callers_config_context")
+        config.reset_config_context()
+        return w
     w = World(hist)
     w.run()
     return w
@@ -817,6 +835,8 @@ def run_one(seed, tier, idx):
             continue
         seen.add(klass)
         payload = {"history": {"subjects": hist["subjects"], "ops": hist["ops"][: (opi + 1 if opi >= 0 else len(hist["ops"]))]}}
+        if hist.get("ambient"):
+            payload["history"]["ambient"] = hist["ambient"]
         out.append(Violation(PROP, klass, detail, payload, history_tags(hist)).to_json())
     w.log.add("violations", sorted(seen))
     multi = any(len(s.op_kinds) >= 2 for s in w.pool)
@@ -842,6 +862,10 @@ def shrink_candidates(payload):
             p = copy.deepcopy(payload)
             p["history"]["ops"].pop(i)
             yield p
+    if hist.get("ambient"):
+        p = copy.deepcopy(payload)
+        del p["history"]["ambient"]
+        yield p
     if len(hist["subjects"]) > 1:
         for i in range(len(hist["subjects"])):
             p = copy.deepcopy(payload)
